@@ -40,6 +40,23 @@ theorem widths_ok : Extracted.Pickle.widthLiterals = [256, 256, 65536, 256] ∧ 
 theorem failure_ok : Extracted.Pickle.failureType = "error" ∧
     Extracted.Pickle.failureIsInterface = ({} : DecCfg).failureIsInterface := by decide
 
+/-- `envUnpickler` switches on exactly the names of the model `envHost`, in its order -/
+theorem env_names_ok : Extracted.Pickle.envNames =
+    [bTarget, bBuiltin, bRecursive, bMandatory, bFunctionCode, bFunction].map (·.map UInt8.toNat) := by decide
+
+/-- the strings it produces: the Mandatory marker and the dict keys, in source order -/
+theorem env_strings_ok : Extracted.Pickle.envStrings =
+    [bMandatoryText, kNames, kConstants, kPredeclared, kUniversal, kFunctions, kGlobals, kCode, kParameters, kDefaults,
+     kFreeVars].map (·.map UInt8.toNat) := by decide
+
+/-- `envUnpickler` and `makeDictFromAssociationList` contain no explicit `panic`: whatever panics in them is a
+`runtime.Error` (the model's `runtimePanic`), never the `otherPanic` that `C15_env_host_sane` excludes; and their
+bodies are the ones `envHost` was written against -/
+theorem env_body_ok : Extracted.Pickle.envExplicitPanics = 0 ∧
+    Extracted.Pickle.bodyEnvUnpickler = Expected.Pickle.bodyEnvUnpickler ∧
+    Extracted.Pickle.bodyMakeDictFromAssociationList = Expected.Pickle.bodyMakeDictFromAssociationList :=
+  ⟨by decide, rfl, rfl⟩
+
 /-- everything else about the modelled functions (control flow, operators, calls): unchanged since the model was written -/
 theorem bodies_ok :
     Extracted.Pickle.bodyWriterWrite = Expected.Pickle.bodyWriterWrite ∧
